@@ -327,3 +327,60 @@ func VerifC01_Management() {
 	checkOrder(deps, "mgmtorder")
 	rt.Reach("mgmt-end")
 }
+
+// ---- management passes with one failing callback: a pass that returns
+// without error has brought exactly the wanted modules online; a failed start
+// or stop is reported ----
+
+func VerifC01_ManagementFailure() {
+	resetModuleSystem()
+	rt.NoTimers()
+	rt.SchedYieldOnly(true)
+	shape := rt.Choice("shape", 6)
+	deps := dagShapes[shape]
+	lcFaults = 0
+	mods := buildDAG(shape)
+	moduleMgmtEnabled.Set()
+	if initDependencies() != nil || prepareModules() != nil {
+		rt.Assert(false, "mgmtfail/setup")
+		return
+	}
+	for i, m := range mods {
+		m.SetEnabled(rt.Bool("enable0" + string(rune('0'+i))))
+	}
+	rt.Assert(ManageModules() == nil, "mgmtfail/first-pass-ok")
+	// second pass: the wanted set changes and one start or stop callback fails
+	for i, m := range mods {
+		m.SetEnabled(rt.Bool("enable1" + string(rune('0'+i))))
+	}
+	lcFaults = 1
+	err := ManageModules()
+	failed := lcFaults == 0
+	if failed {
+		rt.Assert(err != nil, "mgmtfail/failed-callback-reported")
+		rt.Reach("mgmtfail-failed")
+	}
+	if err == nil {
+		wanted := make([]bool, len(mods))
+		for i, m := range mods {
+			wanted[i] = m.Enabled()
+		}
+		for it := 0; it < len(mods); it++ {
+			for i := range mods {
+				for _, d := range deps[i] {
+					wanted[d] = rt.Any(wanted[d], wanted[i])
+				}
+			}
+		}
+		for i, m := range mods {
+			rt.Assert((m.Status() == StatusOnline) == wanted[i], "mgmtfail/no-error-means-online-iff-wanted")
+		}
+	}
+	lcFaults = 0
+	shutdownFlag.Set()
+	_ = stopModules()
+	for _, m := range mods {
+		rt.Assert(m.Status() != StatusOnline, "mgmtfail/shutdown-no-module-online")
+	}
+	rt.Reach("mgmtfail-end")
+}
